@@ -4,6 +4,7 @@ package verifsim
 
 import (
 	"fmt"
+	"sync/atomic"
 	"time"
 )
 
@@ -76,8 +77,31 @@ func genC03Recovery(r *Rng, p *Plan) *Plan {
 	return p
 }
 
+// genC03Stall: one request's provider answer (discovery document or token answer) stays outstanding while other
+// browsers log in: their logins must complete without it.
+func genC03Stall(r *Rng, p *Plan) *Plan {
+	p.Mode = "stall"
+	p.Spec = genSpec(r, genOpts{Filters: 1, AllowRedis: true, Triggers: true, Timeouts: false})
+	p.Spec.IdPs[0].Knobs.LatencyUS = 0 // the fake clock stands still while an answer is stalled
+	site := "idp.token"
+	if r.Bool() {
+		site = "idp.disc"
+		p.Spec.Filters[0].Discovery = true
+	}
+	p.Faults = []Fault{{Site: site, Nth: 1, Kind: "stall"}}
+	t := genTarget(r)
+	p.Ops = []Op{{ID: 1, Kind: "nav", B: 0, Path: t}, {ID: 2, Kind: "recover", B: 1, Path: genTarget(r)}}
+	if r.Bool() {
+		p.Ops = append(p.Ops, Op{ID: 3, Kind: "recover", B: 4, Path: t})
+	}
+	return p
+}
+
 func genC03(r *Rng, tier string, idx int) *Plan {
 	p := &Plan{SchedSeed: r.U64()}
+	if idx%8 == 7 {
+		return genC03Stall(r, p)
+	}
 	if idx%4 == 3 {
 		return genC03Recovery(r, p)
 	}
@@ -178,9 +202,98 @@ func runC03Recovery(p *Plan) *Result {
 	return res
 }
 
+func runC03Stall(p *Plan) *Result {
+	w := NewWorld(p.Spec, p.SchedSeed, 0, p.Faults)
+	w.StartNet(nil)
+	defer w.Close()
+	w.Boot()
+	if w.Rep.BootErr != nil {
+		r := w.result()
+		r.Infra = "generated configuration was rejected: " + w.Rep.BootErr.Error()
+		return r
+	}
+	if len(p.Ops) < 2 {
+		return w.result().only("C03")
+	}
+	f := w.Filters[0]
+	a := w.NewAgents()
+	w.stallInit()
+	main := w.Sim.Cur()
+	taskA := w.Sim.NewTask(1, "stalled")
+	doneA := make(chan struct{})
+	go func() {
+		defer close(doneA)
+		defer func() { _ = recover() }()
+		w.Sim.SetCur(taskA)
+		c15Exec(a, &p.Ops[0])
+	}()
+	stalled := false
+	select {
+	case <-w.stall.sig:
+		stalled = true
+	case <-doneA:
+	}
+	w.Sim.SetCur(main)
+	if !stalled {
+		res := w.result().only("C03")
+		res.Summary = "stall: the site was not reached"
+		return res
+	}
+	var done atomic.Bool
+	wdCh <- &wdReq{patience: stallPatience, done: &done, fire: func() {
+		w.stall.expired.Store(true)
+		w.stall.releaseAll()
+	}}
+	type outcome struct {
+		b       int
+		url     string
+		classes string
+		stuck   string
+	}
+	var outs []outcome
+	for i := range p.Ops[1:] {
+		op := &p.Ops[1+i]
+		if op.Kind != "recover" {
+			continue
+		}
+		nav := a.Nav("while-stalled", op.B, 0, op.Path, 6)
+		w.Sim.SetCur(main)
+		o := outcome{b: op.B, url: nav.FirstURL, stuck: nav.Stuck}
+		for _, r := range nav.Recs {
+			o.classes += r.Class + ","
+		}
+		outs = append(outs, o)
+	}
+	done.Store(true)
+	expired := w.stall.expired.Load()
+	w.stall.releaseAll()
+	<-doneA
+	w.Sim.SetCur(main)
+	site := p.Faults[0].Site
+	if expired {
+		w.violate("C03", "login-waits-for-another-requests-outstanding-answer:"+site, fmt.Sprintf("while the %s answer of browser 0's request was outstanding, another browser's login made no progress for %v of real time and went on as soon as that answer was released; %s", site, stallPatience, describeSpec(p.Spec)))
+	} else {
+		for _, o := range outs {
+			if o.stuck != "" || o.classes != "redirect-idp,redirect-url,ok," {
+				w.violate("C03", "login-does-not-complete-while-another-answer-is-outstanding:"+site, fmt.Sprintf("browser %d following redirects from %s: %s; verdicts: %s; %s", o.b, o.url, o.stuck, o.classes, describeSpec(p.Spec)))
+				break
+			}
+			w.probe("logins-completed-while-another-answer-was-outstanding")
+		}
+	}
+	_ = f
+	res := w.result().only("C03")
+	res.Nontrivial = len(outs) > 0
+	res.Summary = "stall at " + site
+	return res
+}
+
 func runC03(p *Plan) *Result {
 	if p.Mode == "recovery" {
 		return runC03Recovery(p)
+	}
+	if p.Mode == "stall" {
+		return runC03Stall(p)
 	}
 	w := NewWorld(p.Spec, p.SchedSeed, p.Policy, nil)
 	w.StartNet(nil)
